@@ -450,6 +450,18 @@ func (t *Task) Sleep(label string, d time.Duration) {
 	t.WaitUntil(label, d, func() bool { return false })
 }
 
+// Calm ends fault injection by the scheduler: no further stalls, freezes or
+// idle steps, and pending ones are lifted (liveness is checked after faults stop).
+func (s *Sim) Calm() {
+	s.Cfg.StallNum = 0
+	s.Cfg.IdleNum = 0
+	s.Cfg.PausePoints = nil
+	for _, t := range s.tasks {
+		t.hasStall = false
+		t.frozenUntil = 0
+	}
+}
+
 // Freeze keeps the task from being picked for the next n scheduler steps
 // (unless nothing else can run).
 func (s *Sim) Freeze(t *Task, n int) {
